@@ -11,7 +11,7 @@ Definition w_xh (b : hspec) : xhandler := mkXH (B "/v") (B "x-v") [mkBeh (B "a")
 Definition w_vary : list (bytes * list vrule) := [(B "/v", [(B "x-v", 0, B "d")])].
 Definition w_req (v : bytes) : request := mkReq M_GET (B "/v") None [(B "x-v", v)] 1.
 
-(** ---- handle_vary_missing pushed every computed variant (repo commit 89dc992) ---- *)
+(** ---- handle_vary_missing pushed every computed variant (repo commit 8fe98d4) ---- *)
 (** page /v varies on x-v; variant "a" is cacheable, the handler declares NO server caching for variant "b" *)
 Definition w1_cx : configx :=
   mkCfgX (w_cfg false [] w_vary) [w_xh (mkH (B "/v") 2 200 (B "b=") [] SP_NONE 0 false [])] 0 None false true true true true true.
@@ -47,7 +47,7 @@ Proof.
   split; [vm_compute; reflexivity|]. vm_compute. reflexivity.
 Qed.
 
-(** ---- the insert key was built from the request URI, the lookup key from the override URI (16171bb) ---- *)
+(** ---- the insert key was built from the request URI, the lookup key from the override URI (9992768) ---- *)
 Definition w3_cx : configx :=
   mkCfgX (w_cfg false [mkH (B "/p") 0 200 (B "page") [] SP_FULL 0 false []; mkH (B "/./int") 0 200 (B "internal") [] SP_FULL 0 false []] [])
          [] 0 (Some (B "x-int", B "/./int")) true false true true true true.
@@ -60,7 +60,7 @@ Lemma override_poisons_refuted_w :
   bodies (run_cfgx false w3_cx w3_ops) = [B "internal"; B "page"].
 Proof. split; vm_compute; reflexivity. Qed.
 
-(** ---- clear_page keyed the URI as given, not what the default redirect makes of it (5007207) ---- *)
+(** ---- clear_page keyed the URI as given, not what the default redirect makes of it (8ff8142) ---- *)
 Definition w4_cx : configx :=
   mkCfgX (w_cfg true [mkH (B "/a/index.html") 2 200 (B "n=") [] SP_FULL 0 false []] []) [] 0 None true true false true true true.
 Definition w4_r : request := mkReq M_GET (B "/a/") None [] 1.
@@ -70,7 +70,7 @@ Lemma clear_unprimed_refuted_w :
                 rx_from_cache rp = true /\ rx_body rp = B "n=1".
 Proof. do 2 eexists. split; [vm_compute; reflexivity|]. split; reflexivity. Qed.
 
-(** ---- a stream without length got a vary header from the cached-item arm only (1ffc338) ---- *)
+(** ---- a stream without length got a vary header from the cached-item arm only (00528a6) ---- *)
 Definition w5_cx : configx :=
   mkCfgX (w_cfg false [] w_vary) [mkXH (B "/v") (B "x-v") [mkBeh (B "a") w_A 0 0; mkBeh (B "b") (mkH (B "/v") 2 200 (B "b=") [] SP_FULL 0 false []) 0 1]]
          0 None true true true false true true.
